@@ -137,6 +137,22 @@ func atomEdges(atoms []Atom, assign []bool) EdgeFilter {
 	}
 }
 
+// atomVals gives the truth of a boolean SSA value that IS an atom (exact match) under assign.
+func atomVals(atoms []Atom, assign []bool) boolValFn {
+	return func(v ssa.Value) (bool, bool) {
+		for i, a := range atoms {
+			wt, wf := a.Match(v)
+			if wt == +1 && wf == -1 {
+				return assign[i], true
+			}
+			if wt == -1 && wf == +1 {
+				return !assign[i], true
+			}
+		}
+		return false, false
+	}
+}
+
 // atomSites counts the If conditions in fn that each atom recognises.
 func atomSites(fn *ssa.Function, atoms []Atom) []int {
 	n := make([]int, len(atoms))
@@ -193,7 +209,7 @@ func checkGuard(p *Prog, r *Report, gs GuardSpec) {
 		if gs.G(assign) {
 			continue
 		}
-		w := findPath(starts, andEdges(atomEdges(gs.Atoms, assign), gs.Extra), gs.Avoid, gs.Target)
+		w := findPathV(starts, andEdges(atomEdges(gs.Atoms, assign), gs.Extra), gs.Avoid, gs.Target, atomVals(gs.Atoms, assign))
 		if w != nil {
 			var as []string
 			for i, a := range gs.Atoms {
